@@ -6,6 +6,7 @@ The codec is outside the property: a tiny fake codec (1 marker byte + xor) is pa
 stand-in so that frames can be 1-3 bytes long and every byte string handed to `blosc.decompress_ptr`
 (and the address it is asked to write to) is recorded.
 """
+import hashlib
 import itertools
 import json
 import os
@@ -273,7 +274,7 @@ def check_case(ctx, label, stream, sizes, tag, mres, sp, conv, wellformed):
             'nchunks': len(sizes)}
     if case['stream'] is None or case['sizes'] is None:
         case['note'] = 'large case: regenerate with the same seed/tier'
-    ctx.case(case, nontrivial=len(stream) > 0, key=(stream.hex() if len(stream) <= 64 else hash(stream), rle(sizes)))
+    ctx.case(case, nontrivial=len(stream) > 0, key=(stream.hex() if len(stream) <= 64 else hashlib.blake2b(stream, digest_size=8).hexdigest(), rle(sizes)))
     enough(ctx)
     ctx.count('family:' + label)
     ctx.count('chunks:' + ('0' if not sizes else '1' if len(sizes) == 1 else '2-8' if len(sizes) <= 8 else '9+'))
